@@ -270,8 +270,7 @@ def tri(it: M.Interp, premise: Formula, conclusion: Formula) -> tuple[str, "dict
         if consistent and robust:
             # a free atom that depends on the external options may stand for a pattern test in a spelling the model does not
             # know: then nothing can be said about EXCL / HAS
-            # (`EXCL(<name>)`: the patterns applied to one particular name that is not the element's own - understood)
-            opaque = sorted(a for a in names_ if not is_canonical(a) and it.taint_of_atom(a) & {"FLAG", "EXT"} and not a.startswith(("ISNONE[", "EXCL(")))
+            opaque = sorted(a for a in names_ if not is_canonical(a) and it.taint_of_atom(a) & {"FLAG", "EXT"} and not a.startswith("ISNONE["))
             opaque = sorted(set(opaque) | set(not_understood(it, premise, conclusion)))
             if opaque:
                 return "undecided", {a: True for a in opaque}
@@ -365,10 +364,92 @@ def strip_elem(g: Formula, sym: str) -> Formula:
     return conj([h for h in cs if not any(M.mentions(a, sym) for a in atoms_of(h))])
 
 
+# --------------------------------------------------------------------------- the ancestor walk, unrolled on concrete names
+
+
+def check_walk(repo: Repo, res: Result, it: M.Interp, internal: set[str]) -> "bool | None":
+    """R4, ancestor part made concrete: the pipeline is interpreted once more with four concrete imports (of `aa`, `aa.bb`,
+    `aa.bb.cc`, `aa.bb.cc.dd`) instead of a generic one.  Strings derived from these names are computed (partition / rpartition /
+    split / slices / join / f-strings ...), `while` loops over them are carried out round by round and recursion on them is
+    followed; a pattern test on the concrete name n is the atom EXCL('n').  With externals included, patterns present and the
+    import external, the retention of the import of N must be false as soon as N or ANY of its proper ancestors matches, and
+    true when none does: an ancestor whose atom does not switch the import off is never tested.
+
+    True: decided and fine for all four names; False: a violation was reported; None: no verdict from the unrolling.
+    """
+    try:
+        itc = M.Interp(repo, it.entry, it.flag_params, it.ext_params, internal, concrete=True)
+        itc.run()
+    except Exception as e:  # noqa: BLE001 - the symbolic rules still speak
+        res.observe(f"C10.R4 ancestor walk: the unrolling on concrete names failed ({type(e).__name__}: {e})")
+        return None
+    if len(itc.sinks) != 1 or not isinstance(itc.sinks[0].imports, M.Coll):
+        return None
+    sink = itc.sinks[0]
+    sink_key = repo.key(sink.fi, stmt_of(sink.node) or sink.node)
+    verdicts = []
+    for ci in itc.conc_imports:
+        k = disj(p.guard for p in sink.imports.parts if p.kind == "lit" and any(i is ci for i in p.items))
+        if any(p.kind != "lit" for p in sink.imports.parts):
+            return None  # the import list is not made of the concrete imports only
+        lineage = [ci.name, *reversed(M.dotted_ancestors(ci.name))]
+        excl = {n: f"EXCL({n!r})" for n in lineage}
+        others = sorted(atoms_of(k) - set(excl.values()))
+        if len(others) > 12:
+            return None
+        # a situation in which this import is an external one that is kept because nothing matches - and is dropped when it
+        # matches itself: externals included, patterns present, every other fact as favourable as needed
+        # every situation (values of the other facts) in which this import is an external one that is kept because nothing
+        # matches and dropped when it matches itself - externals included: in each of them every ancestor must switch it off too
+        tested_all: "set[str] | None" = None
+        has_int = any(a_.startswith("INT(") for a_ in others)
+        for env_o in M.assignments(others):
+            if env_o.get("FLAG") or env_o.get("HAS") is False or any(v for a_, v in env_o.items() if a_.startswith("INT(")):
+                continue  # externals included, patterns present, the import not internal
+            base = {**env_o, **{a_: False for a_ in excl.values()}}
+            if not evaluate(k, base):
+                continue
+            if not has_int and evaluate(k, {**base, excl[ci.name]: True}):
+                continue  # (no named internal test in the formula: a situation in which the patterns have no say is an internal one)
+            t_here = {n for n in lineage if not evaluate(k, {**base, excl[n]: True})}
+            tested_all = t_here if tested_all is None else (tested_all & t_here)
+        if tested_all is None:
+            return None  # no situation in which this import is a retained external one: R4 (symbolic) speaks
+        tested = [n for n in lineage if n in tested_all]
+        skipped = [n for n in lineage if n not in tested_all]
+        extra = sorted(a_ for a_ in atoms_of(k) if a_.startswith("EXCL(") and a_ not in excl.values())
+        verdicts.append((ci.name, tested, skipped, extra, k))
+    cuts = []
+    for f, text, _node in itc.cuts:
+        c = f"`{text}` in {f.qualname}"
+        if c not in cuts:
+            cuts.append(c)
+    if not any(t for _n, t, _sk, _x, _k in verdicts):
+        return None  # no pattern test on any concrete name met: the symbolic obligations speak
+    bad = [(n, t, sk) for n, t, sk, _x, _k in verdicts if sk]
+    construct = sink_key + " [include mode: every ancestor consulted]"
+    if bad:
+        n, t, sk = max(bad, key=lambda b: len(b[0]))
+        detail = (
+            f"for an external import of `{n}` the exclusion patterns are applied to {', '.join('`' + x + '`' for x in t) or 'no name'} but never to "
+            f"{', '.join('`' + x + '`' for x in sk)}: an external whose ancestor `{sk[0]}` matches a pattern keeps its import (and the calculator re-adds the excluded package). "
+            + (f"The names are derived by {'; '.join(cuts[:4])}." if cuts else "")
+            + " (unrolled on " + ", ".join(f"`{v[0]}`: tested {{{', '.join(v[1])}}}" for v in verdicts) + ")"
+        )
+        where_ = ""
+        for f, _text, node in itc.cuts:
+            where_ = where(f, node)
+            break
+        res.add("C10.R4", construct, False, detail, where_ or where(sink.fi, sink.node), kind="decision-table")
+        return False
+    res.add("C10.R4", construct, True, "unrolled on the names aa, aa.bb, aa.bb.cc, aa.bb.cc.dd: an external import is switched off by a match of the importee and of each of its proper ancestors (" + "; ".join(f"{v[0]}: {{{', '.join(v[1])}}}" for v in verdicts) + ")" + (f"; names derived by {'; '.join(cuts[:3])}" if cuts else ""), where(sink.fi, sink.node), kind="decision-table")
+    return True
+
+
 # --------------------------------------------------------------------------- the rules on one sink
 
 
-def check_sink(repo: Repo, res: Result, it: M.Interp, s: M.Sink) -> None:
+def check_sink(repo: Repo, res: Result, it: M.Interp, s: M.Sink, walk_ok: "bool | None" = None) -> None:
     sink_key = repo.key(s.fi, stmt_of(s.node) or s.node)
     sink_where = where(s.fi, s.node)
     mods, imps = s.modules, s.imports
@@ -451,7 +532,14 @@ def check_sink(repo: Repo, res: Result, it: M.Interp, s: M.Sink) -> None:
     k_imp_r = M.retention(imps_r, E, any_base)
     k_scan_r = M.retention(mods_r, E, scanned)
 
-    def verdict(rule: str, construct: str, premise: Formula, conclusion: Formula, ok_text: str, bad_text: str, at: str) -> None:
+    def verdict(rule: str, construct: str, premise: Formula, conclusion: Formula, ok_text: str, bad_text: str, at: str, by_unrolling: bool = False) -> None:
+        if by_unrolling and walk_ok is not None:
+            # which names the patterns are applied to is decided on the concrete names aa .. aa.bb.cc.dd (obligation `every
+            # ancestor consulted`): exact for walks over the ancestors (recursive, iterative, by index), which the generic
+            # description can only leave open or misread
+            if walk_ok:
+                res.add(rule, construct, True, ok_text + " (decided by unrolling the pipeline on imports of names with 1 to 4 components)", at, kind="decision-table")
+            return
         st, w = tri(it, premise, conclusion)
         if st == "ok":
             res.add(rule, construct, True, ok_text, at, kind="decision-table")
@@ -462,8 +550,8 @@ def check_sink(repo: Repo, res: Result, it: M.Interp, s: M.Sink) -> None:
             res.undecide(rule, construct, f"cannot decide `{show(premise)}` -> `{show(conclusion)}`: it hinges on facts the model does not know{hint}", at)
 
     verdict("C10.R4", sink_key + " [exclude mode: imports]", conj([k_imp_r, FLAG]), INT, "with externals excluded only imports accepted by the internal test remain", f"with externals excluded an import whose importee is not internal is retained: retention is `{show(k_imp_r)}`", sink_where)
-    verdict("C10.R4", sink_key + " [include mode: matching externals dropped]", conj([k_imp_r, f_not(INT), f_not(FLAG)]), conj([f_not(EX), f_not(EXA)]), "an external import is dropped when its importee or one of its ancestors matches a pattern", f"an external import whose importee or one of whose ancestors matches an external exclusion pattern is retained (the patterns are not consulted for it): retention is `{show(k_imp_r)}`", sink_where)
-    verdict("C10.R4", sink_key + " [include mode: other externals kept]", conj([f_not(FLAG), f_not(EX), f_not(EXA)]), k_imp_r, "with externals included every import that matches no pattern (itself and its ancestors) is retained", f"with externals included an import that matches no external pattern is dropped: retention is `{show(k_imp_r)}`", sink_where)
+    verdict("C10.R4", sink_key + " [include mode: matching externals dropped]", conj([k_imp_r, f_not(INT), f_not(FLAG)]), conj([f_not(EX), f_not(EXA)]), "an external import is dropped when its importee or one of its ancestors matches a pattern", f"an external import whose importee or one of whose ancestors matches an external exclusion pattern is retained (the patterns are not consulted for it): retention is `{show(k_imp_r)}`", sink_where, by_unrolling=True)
+    verdict("C10.R4", sink_key + " [include mode: other externals kept]", conj([f_not(FLAG), f_not(EX), f_not(EXA)]), k_imp_r, "with externals included every import that matches no pattern (itself and its ancestors) is retained", f"with externals included an import that matches no external pattern is dropped: retention is `{show(k_imp_r)}`", sink_where, by_unrolling=True)
     verdict("C10.R4", sink_key + " [exclude mode: modules]", conj([FLAG, INSCAN]), k_scan_r, "with externals excluded every scanned module is handed to the graph", f"with externals excluded a scanned module is not handed on: retention is `{show(k_scan_r)}`", sink_where)
 
     # ---- R3 / R4: what is appended to the module list
@@ -737,8 +825,9 @@ def run(repo: Repo) -> Result:
                 it.sinks.append(M.Sink(mods[0], imps[0], g, fi, node))
     if not it.sinks:
         res.undecide("C10.R1", f"{it.entry.relpath}::{it.entry.qualname}::graph construction", f"no construction of {M.SINK_CLASS}(modules, imports, ..) was met while interpreting the scan entry point", where(it.entry, it.entry.node))
+    walk_ok = check_walk(repo, res, it, internal) if it.sinks else None
     for s in it.sinks:
-        check_sink(repo, res, it, s)
+        check_sink(repo, res, it, s, walk_ok)
     run_r2(repo, res, it, internal, how)
     # ---- R5: the scan pipeline keeps no state between scans
     from core.effects import Effects
